@@ -60,7 +60,7 @@ def before_diff(c):
 
 RACE_OPS = [
     "stress 8 2000 0 0",
-    "stress 64 5000 0 0",
+    "stress 32 2000 0 0",
     "stress 16 1000 18446744073709543615 18446744073709551000",
     "stress 32 500 4294959295 9223372036854771807",
 ]
